@@ -266,6 +266,25 @@ def run(ctx):
                     hit[0][2].extend(kinds)
                 else:
                     failing.append((r, t, kinds))
+    # items_sound (hypothesis of C10_viable_prefix): the item sets of every state are justified from
+    # its kernel, shift/goto targets have items, S' has one production
+    icases, imeta = [], []
+    for r in results:
+        if r["gerr"]:
+            continue
+        for t in r["tabs"]:
+            if t["outcome"] == "ok":
+                icases.append((14, [r["grammar"], t["table"]]))
+                imeta.append((r, t))
+    st["validated_items_sound"] = 0
+    for (r, t), o in zip(imeta, common.model_run(icases)):
+        st["validated_items_sound"] += 1
+        allok, closure, ne0, productive, uniq = o
+        if closure != 1 or ne0 != 1 or uniq != 1:
+            ctx.violation("items_sound fails on the impl's table (closure/targets %d, state 0 items %d, single S' "
+                          "production %d): item sets are not justified from their kernels" % (closure, ne0, uniq),
+                          {"grammar": r["gtext"], "table_kind": t["kind"], "start_rule": r["start_rule"]},
+                          no_input=True, key="items_sound")
     # known finding or violation: does the frozen baseline implementation fail identically?
     if failing:
         bjobs = []
